@@ -206,6 +206,8 @@ def run_check(case) -> Outcome:
                 step = script[i]
                 i += 1
                 try:
+                    if step in ("ctx_cancel", "ext_cancel") and internal["level"] is not None:
+                        internal["tainted"] = True
                     if step == "ctx_cancel":
                         ctx.cancel()
                         pending += 1
@@ -225,6 +227,10 @@ def run_check(case) -> Outcome:
                         if stack and internal["level"] is None and not internal["tainted"]:
                             ctx.spawn(failing)
                             internal["level"], internal["suspended"] = len(stack), False
+                            if seen_request["v"]:
+                                # a request of the user's (even one taken back) next to the group's own: which of the two a
+                                # delivered CancelledError belongs to cannot be told - not judged from here on
+                                internal["tainted"] = True
                     elif step == "check" and (internal["level"] is not None or internal["tainted"]):
                         try:
                             ctx.check_cancellation()
@@ -245,7 +251,7 @@ def run_check(case) -> Outcome:
                         if expect_delivery:
                             # a cancellation request (ctx.cancel() or task.cancel()) must be delivered at the next
                             # suspension point; reaching this line means it was not
-                            obs.append(("undelivered", True, False, me.cancelling()))
+                            obs.append(("undelivered-after-failed-child-exit" if internal["tainted"] else "undelivered", True, False, me.cancelling()))
                     elif step == "other":
                         t = loop.create_task(other_task())
                         await asyncio.shield(t)
@@ -256,22 +262,28 @@ def run_check(case) -> Outcome:
                         stack.append(cm)
                     elif step == "leave" and stack:
                         left_level = len(stack)
+                        undelivered_at_leave = must_deliver["v"]
                         try:
                             await stack.pop().__aexit__(None, None, None)
                         finally:
                             if internal["level"] == left_level:
-                                internal["tainted"] = internal["tainted"] or not internal["suspended"]
+                                # ... or a request of the user's that had not been delivered yet when the exit began: it is
+                                # delivered inside the exit, where the failed task's error wins (KF1)
+                                internal["tainted"] = internal["tainted"] or not internal["suspended"] or undelivered_at_leave
                                 internal["level"] = None
                     elif step == "leave_err" and stack:
                         # the block is left with an ordinary exception of its body (handled by the code around it): this
                         # neither makes nor takes back a cancellation request
                         err = ValueError("body failed")
                         left_level = len(stack)
+                        undelivered_at_leave = must_deliver["v"]
                         try:
                             await stack.pop().__aexit__(ValueError, err, None)
                         finally:
                             if internal["level"] == left_level:
-                                internal["tainted"] = internal["tainted"] or not internal["suspended"]
+                                # ... or a request of the user's that had not been delivered yet when the exit began: it is
+                                # delivered inside the exit, where the failed task's error wins (KF1)
+                                internal["tainted"] = internal["tainted"] or not internal["suspended"] or undelivered_at_leave
                                 internal["level"] = None
                 except asyncio.CancelledError:
                     # the script's own 'catch': delivery of a request; the request stays pending until uncancel()
@@ -335,6 +347,15 @@ def run_check(case) -> Outcome:
             out.violate("check", "C07.check/raises-in-unrelated-task", f"script={script}")
         if kind == "undelivered":
             out.violate("request", "C07.request/cancellation-request-not-delivered", f"script={script}: task.cancelling()={cancelling}")
+        if kind == "undelivered-after-failed-child-exit":
+            # the request was delivered while the scope exit waited for a spawned task that failed, and was lost there:
+            # the known finding KF1 (asyncio.TaskGroup prefers the task's error, haiway silences the group), reached through
+            # a script instead of a program
+            out.violate(
+                "lost",
+                "C07.lost/cancel-swallowed/exit/with-failed-child/in-group-exit/check-script",
+                f"script={script}: a pending cancellation request was consumed by the scope exit (task.cancelling()={cancelling})",
+            )
     out.classes = ["check-after-request"] if any(k == "check" and e for k, e, _, _ in obs) else []
     out.nontrivial = bool(out.classes)
     return out
